@@ -7,6 +7,28 @@ KERNEL_NOTE = ('Trusted: Lean kernel; axioms propext/Classical.choice/Quot.sound
                'deterministic fakes on the Python side and by the recorded answers on the model side); kernel contracts are hypotheses; '
                'exact field arithmetic (IEEE rounding not modelled).')
 CHECKS = {
+ 'C08': {
+  'text': 'Proof (partial): single-site TDVP with purely imaginary dt keeps norm 1 and the energy of the normalised input for any number of steps and any number of Krylov iterations '
+          '(sweep invariant: mixed-canonical form + environment blocks = C04 partial contractions; local Lanczos-exponential steps preserve norm and <x,H_eff x>), returns the norm of the input, '
+          'never increases a bond (every QR step, any oracle with the shape clause), keeps qd/number of sites (13 theorems, all conditional on the run returning). Two-site TDVP: returned norm and '
+          'structure only; its conservation clauses, and non-mutation of H (trivial in a functional model), are carried by the exact correspondence of whole calls (H snapshot) and the oracle.',
+  'note': KERNEL_NOTE + ' QRKernel, NormContract, EighAt (per run), |dexp(i x)| = 1 are assumptions about NumPy/SciPy.',
+  'design_ref': 'DESIGN.md §7 C08/C09/C10',
+ },
+ 'C09': {
+  'text': 'Proof (partial): the cancellation law behind time reversibility — a Hermitian Krylov exponential step with dt followed by one with -dt on the result is the identity when both runs exhaust '
+          'their Krylov spaces and E(a)E(-a) = 1, for any complex dt, also at the level of localHamiltonianStep on site tensors (2 theorems). Exactness on a complete manifold and reversibility of whole '
+          'sweeps are not proved: they are decided by the exact correspondence of whole TDVP calls (real / imaginary / complex dt) and, after a break, by the oracle against scipy expm.',
+  'note': KERNEL_NOTE + ' EighAt/ExpContract assumptions as in C15.',
+  'design_ref': 'DESIGN.md §7 C08/C09/C10',
+ },
+ 'C10': {
+  'text': 'Proof (partial): single-site DMRG (L >= 2, any sweeps / Lanczos iterations): the returned state is normalised, its energy equals the last reported energy, every reported energy is >= every '
+          'lower bound of the dense operator and <= the energy of the normalised start, and the reported sequence is non-increasing; local Ritz step facts and gauge moves preserving the dense state '
+          '(6 theorems, conditional on the run returning). Two-site DMRG and the sector-restricted ground-state bound are carried by the exact correspondence of whole calls and the oracle.',
+  'note': KERNEL_NOTE + ' QRKernel, NormContract, EighAt are assumptions about NumPy/SciPy.',
+  'design_ref': 'DESIGN.md §7 C08/C09/C10',
+ },
  'C06': {
   'text': 'Proof (partial): for every L (incl. chains shorter than the longest term), all parameters and all Bose dimensions: the chain lists handed to from_opchains are well formed, are word by word '
           'the documented sums of local terms (XXZ spin-1/2 and spin-1, Bose-Hubbard, Fermi-Hubbard with the Jordan-Wigner factor; Ising via its automaton), the compiled graphs denote those sums '
